@@ -6,6 +6,8 @@ from __future__ import annotations
 
 import ast
 
+from fractions import Fraction
+
 from ..alg import Poly, Q, Rat, is_zero
 from ..repo import AnalysisError, dotted, norm_text, walk_no_nested
 from ..xeval import Interp, XObj, XRaise
@@ -307,3 +309,289 @@ def run(ctx):
     reducers(ctx)
     broadcast_rule(ctx)
     fe_axis_drop(ctx)
+    protocol_rule(ctx)
+
+
+# ---------------------------------------------------------------------------
+# R12.7  the protocol overrides, interpreted (sa/femodel.py) and compared with the per-point tensor operation
+# ---------------------------------------------------------------------------
+
+
+def _mk(tag, shape, fe=True, numeric=False):
+    import itertools
+    from ..femodel import FeV
+
+    data = []
+    for k, idx in enumerate(itertools.product(*[range(s) for s in shape])):
+        data.append(Q(7 * k * k + 3 * k + 11, 13 + k) if numeric else Poly.var(f"{tag}{''.join(map(str, idx))}"))
+    return (FeV if fe else XArray)(tuple(shape), data)
+
+
+def _pt(a, e, p, fe):
+    """tensor of operand `a` at element e, point p (a constant is itself)"""
+    if not fe or not isinstance(a, XArray):
+        return a
+    ee = e if a.shape[0] > 1 else 0
+    pp = p if a.shape[1] > 1 else 0
+    return XArray.__getitem__(XArray(a.shape, a.data), (ee, pp))
+
+
+def _lead(*ops):
+    ne = npg = 1
+    for a, fe in ops:
+        if fe:
+            ne, npg = max(ne, a.shape[0]), max(npg, a.shape[1])
+    return ne, npg
+
+
+def _stack(ne, npg, f):
+    """assemble result[e, p] = f(e, p)"""
+    items = [[f(e, p) for p in range(npg)] for e in range(ne)]
+    first = items[0][0]
+    if isinstance(first, XArray):
+        return XArray((ne, npg) + first.shape, [x for row in items for t in row for x in t.data])
+    return XArray((ne, npg), [t for row in items for t in row])
+
+
+def _same(got, want):
+    if not isinstance(got, XArray) or got.shape != want.shape:
+        return f"shape {getattr(got, 'shape', type(got).__name__)}, expected {want.shape}"
+    for k, (x, y) in enumerate(zip(got.data, want.data)):
+        d = x - y
+        if not is_zero(d if not isinstance(d, bool) else 0):
+            return f"entry #{k}: {x!r}, expected {y!r}"
+    return None
+
+
+def _rat_data(a):
+    """entries as rational functions so that quotients compare by cross-multiplication"""
+    return XArray(a.shape, [Rat.of(x) if isinstance(x, Poly) else x for x in a.data])
+
+
+def protocol_rule(ctx):
+    from ..femodel import Model, FeV, plain
+    from ..xarray import einsum as xe, matmul as x_matmul
+
+    repo = ctx.repo
+    r = ctx.rule(
+        "R12.7",
+        "protocol overrides interpreted under the numpy subclass-protocol model: every operator / contraction / transpose / reduction on finite-element arrays equals the "
+        "plain numpy operation on the tensors at each (e, p), constants held at every point; the result is a FeArray exactly when the (Ne, nPg) axes survive",
+        min_instances=150,
+    )
+    M = Model(repo)
+    FE = M.cls
+    for nm in ("__array_ufunc__", "__array_function__", "_align", "__wrap", "T", "__matmul__", "dot", "ddot", "reshape", "integrate", "asfearray", "broadcast", "__new__"):
+        f = M.method(nm)
+        if f is None:
+            raise AnalysisError(f"R12.7: FeArray.{nm} not found")
+        r.analysed(f.qualname)
+    for nm in ("_Base", "_Evaluate", "_FeShape", "_KeepsFeAxes"):
+        r.analysed(repo.func(f"{LA}.{nm}").qualname)
+    anchor = M.method("__array_ufunc__")
+
+    def run(desc, thunk, want, want_fe, key):
+        r.instance()
+        try:
+            got = thunk()
+        except XRaise as e:
+            r.fail(f"{LA}.FeArray", key, anchor.file, anchor.lineno, "FeArray", f"{desc}: raises {e}")
+            return
+        if not isinstance(want, XArray) and isinstance(got, XArray) and got.size == 1:
+            got = got.data[0]
+        bad = _same(_rat_data(got) if isinstance(got, XArray) else got, _rat_data(want)) if isinstance(want, XArray) else (None if is_zero(got - want) else f"value {got!r}, expected {want!r}")
+        if bad is None and isinstance(want, XArray):
+            is_fe = isinstance(got, FeV)
+            if is_fe != want_fe:
+                bad = f"result type is {'FeArray' if is_fe else 'ndarray'}, expected {'FeArray' if want_fe else 'ndarray'}"
+        if bad:
+            r.fail(f"{LA}.FeArray", key, anchor.file, anchor.lineno, "FeArray", f"{desc}: {bad}")
+        else:
+            r.ok(desc)
+
+    OPS = {"+": lambda x, y: x + y, "-": lambda x, y: x - y, "*": lambda x, y: x * y, "/": lambda x, y: x / y}
+
+    def pointwise(f, A, afe, B, bfe):
+        ne, npg = _lead((A, afe), (B, bfe))
+
+        def at(e, p):
+            x, y = _pt(A, e, p, afe), _pt(B, e, p, bfe)
+            if isinstance(x, XArray):
+                return XArray._binop(_rat_data(x), _rat_data(y) if isinstance(y, XArray) else y, f)
+            if isinstance(y, XArray):
+                return XArray._binop(_rat_data(y), x, f, True)
+            return f(Rat.of(x) if isinstance(x, Poly) else x, Rat.of(y) if isinstance(y, Poly) else y)
+
+        return _stack(ne, npg, at)
+
+    # ---- elementwise arithmetic: field-field (all rank pairs, leading-shape variants), field-constant, constant-field
+    for ne, npg in ((2, 2), (3, 2)):
+        d = 2
+        tens = {0: (), 1: (d,), 2: (d, d)}
+        for ra in (0, 1, 2):
+            for rb in (0, 1, 2):
+                for lead_b in ((ne, npg), (ne, 1), (1, npg), (1, 1)):
+                    if (ne, npg) == (3, 2) and lead_b != (ne, npg) and (ra, rb) not in ((0, 2), (2, 1), (1, 1)):
+                        continue
+                    A = _mk("a", (ne, npg) + tens[ra])
+                    B = _mk("b", lead_b + tens[rb])
+                    for sym, f in OPS.items():
+                        if sym in ("-", "/") or (ra, rb) in ((1, 2), (2, 1), (0, 2)):
+                            run(f"field{A.shape} {sym} field{B.shape}", lambda A=A, B=B, f=f: f(A, B), pointwise(f, A, True, B, True), True, f"ew:{sym}:fe{ra}{A.shape[:2]}:fe{rb}{B.shape[:2]}")
+                            run(f"field{B.shape} {sym} field{A.shape}", lambda A=A, B=B, f=f: f(B, A), pointwise(f, B, True, A, True), True, f"ew:{sym}:fe{rb}{B.shape[:2]}:fe{ra}{A.shape[:2]}")
+            # constants: scalar, vector, matrix (plain arrays are constant tensors whatever Ne, nPg are)
+            A = _mk("a", (ne, npg) + tens[ra])
+            for rc in (0, 1, 2):
+                C = Q(5, 3) if rc == 0 else _mk("c", tens[rc], fe=False)
+                for sym, f in OPS.items():
+                    run(f"field{A.shape} {sym} constant{getattr(C, 'shape', ())}", lambda A=A, C=C, f=f: f(A, C), pointwise(f, A, True, C, False), True, f"ew:{sym}:fe{ra}{A.shape[:2]}:c{rc}")
+                    run(f"constant{getattr(C, 'shape', ())} {sym} field{A.shape}", lambda A=A, C=C, f=f: f(C, A), pointwise(f, C, False, A, True), True, f"ew:{sym}:c{rc}:fe{ra}{A.shape[:2]}")
+
+    # ---- matmul, dot, ddot, transpose
+    def contract(A, afe, B, bfe, k):
+        ne, npg = _lead((A, afe), (B, bfe))
+        letters = "abcdefgh"
+
+        def at(e, p):
+            x, y = _pt(A, e, p, afe), _pt(B, e, p, bfe)
+            ra, rb = x.ndim, y.ndim
+            ia = letters[:ra]
+            ib = ia[ra - k:] + letters[ra: ra + rb - k]
+            out = ia[: ra - k] + ib[k:]
+            res = xe(f"{ia},{ib}->{out}", x, y)
+            return res
+
+        return _stack(ne, npg, at)
+
+    for ne, npg in ((2, 2), (3, 2)):
+        d = 2
+        T1, T2, T4 = (d,), (d, d), (d, d, d, d)
+        v, w = _mk("v", (ne, npg) + T1), _mk("w", (ne, npg) + T1)
+        m, n_ = _mk("m", (ne, npg) + T2), _mk("n", (ne, npg) + T2)
+        c4 = _mk("q", (ne, npg) + T4)
+        cv, cm = _mk("c", T1, fe=False), _mk("k", T2, fe=False)
+        L = f"{ne}x{npg}"
+        # @
+        run(f"[{L}] matrix field @ matrix field", lambda: m @ n_, contract(m, True, n_, True, 1), True, f"matmul:22:{L}")
+        run(f"[{L}] matrix field @ vector field", lambda: m @ v, contract(m, True, v, True, 1), True, f"matmul:21:{L}")
+        run(f"[{L}] vector field @ matrix field", lambda: v @ m, contract(v, True, m, True, 1), True, f"matmul:12:{L}")
+        run(f"[{L}] vector field @ vector field", lambda: v @ w, contract(v, True, w, True, 1), True, f"matmul:11:{L}")
+        run(f"[{L}] matrix field @ constant matrix", lambda: m @ cm, contract(m, True, cm, False, 1), True, f"matmul:2c2:{L}")
+        run(f"[{L}] matrix field @ constant vector", lambda: m @ cv, contract(m, True, cv, False, 1), True, f"matmul:2c1:{L}")
+        run(f"[{L}] vector field @ constant matrix", lambda: v @ cm, contract(v, True, cm, False, 1), True, f"matmul:1c2:{L}")
+        run(f"[{L}] constant matrix @ matrix field", lambda: cm @ m, contract(cm, False, m, True, 1), True, f"matmul:c22:{L}")
+        run(f"[{L}] constant matrix @ vector field", lambda: cm @ v, contract(cm, False, v, True, 1), True, f"matmul:c21:{L}")
+        run(f"[{L}] constant vector @ matrix field", lambda: cv @ m, contract(cv, False, m, True, 1), True, f"matmul:c12:{L}")
+        run(f"[{L}] constant vector @ vector field", lambda: cv @ v, contract(cv, False, v, True, 1), True, f"matmul:c11:{L}")
+        # dot / ddot through the methods
+        for (x, xn), (y, yn, yfe) in (((v, "vector"), (w, "vector", True)), ((m, "matrix"), (v, "vector", True)), ((m, "matrix"), (n_, "matrix", True)), ((c4, "4th-order"), (m, "matrix", True)), ((v, "vector"), (cm, "constant matrix", False)), ((m, "matrix"), (cv, "constant vector", False))):
+            run(f"[{L}] {xn}.dot({yn})", lambda x=x, y=y: M.attr_hook(x, "dot")(y), contract(x, True, y, yfe, 1), True, f"dot:{xn}:{yn}:{L}")
+        for (x, xn), (y, yn, yfe) in (((m, "matrix"), (n_, "matrix", True)), ((c4, "4th-order"), (m, "matrix", True)), ((m, "matrix"), (c4, "4th-order", True)), ((c4, "4th-order"), (c4, "4th-order", True)), ((m, "matrix"), (cm, "constant matrix", False)), ((c4, "4th-order"), (cm, "constant matrix", False))):
+            run(f"[{L}] {xn}.ddot({yn})", lambda x=x, y=y: M.attr_hook(x, "ddot")(y), contract(x, True, y, yfe, 2), True, f"ddot:{xn}:{yn}:{L}")
+        # fields with a broadcast leading shape in contractions
+        m1 = _mk("m", (ne, 1) + T2)
+        v1 = _mk("v", (1, npg) + T1)
+        run(f"[{L}] per-element matrix @ per-point vector", lambda: m1 @ v1, contract(m1, True, v1, True, 1), True, f"matmul:21b:{L}")
+        run(f"[{L}] per-element matrix .dot per-point vector", lambda: M.attr_hook(m1, "dot")(v1), contract(m1, True, v1, True, 1), True, f"dot:21b:{L}")
+        # transpose
+        for x, xn in ((m, "matrix"), (c4, "4th-order"), (v, "vector"), (_mk("s", (ne, npg)), "scalar"), (_mk("r", (ne, npg, 2, 3)), "2x3 matrix")):
+            def tr(e, p, x=x):
+                t = _pt(x, e, p, True)
+                return t.transpose() if isinstance(t, XArray) and t.ndim >= 2 else t
+
+            run(f"[{L}] {xn}.T", lambda x=x: M.attr_hook(x, "T"), _stack(ne, npg, tr), True, f"T:{xn}:{L}")
+
+    # ---- reductions, reshape, integrate: value and type
+    from ..femodel import reduce_plain, _UF
+
+    for shape in ((2, 2, 2, 2), (3, 2, 2), (2, 2)):
+        X = _mk("x", shape)
+        Xn = _mk("x", shape, numeric=True)
+        nd = len(shape)
+        axes = [None] + list(range(nd)) + [-1, -2] + ([(2, 3), (0, 2), (-1, -2)] if nd == 4 else []) + ([(0, 1)] if nd >= 2 else [])
+        for name, ufn in (("sum", "add"), ("prod", "multiply"), ("max", "maximum"), ("min", "minimum"), ("mean", None)):
+            arr = Xn if name in ("max", "min") else X
+            for ax in axes:
+                if isinstance(ax, tuple) and any(a >= nd or a < -nd for a in ax):
+                    continue
+                pl = XArray(arr.shape, arr.data)
+                if name == "mean":
+                    tot = reduce_plain(pl, _UF["add"], ax)
+                    axs = tuple(range(nd)) if ax is None else (ax if isinstance(ax, tuple) else (ax,))
+                    cnt = 1
+                    for a in axs:
+                        cnt *= shape[a % nd]
+                    want = tot * Q(1, cnt)
+                else:
+                    want = reduce_plain(pl, _UF[ufn], ax)
+                axs = () if ax is None else (ax if isinstance(ax, tuple) else (ax,))
+                keeps = ax is not None and all((a % nd) >= 2 for a in axs) and isinstance(want, XArray) and want.ndim >= 2
+                for route in ("method", "np"):
+                    if route == "np" and name == "prod":
+                        continue
+                    if route == "method":
+                        th = lambda arr=arr, name=name, ax=ax: M.attr_hook(arr, name)(axis=ax)
+                    else:
+                        th = lambda arr=arr, name=name, ax=ax: M.call_hook(__import__("sa.xeval", fromlist=["_NpAttr"])._NpAttr(name), [arr], {"axis": ax})
+                    run(f"{'FeArray.' if route == 'method' else 'np.'}{name}(field{shape}, axis={ax})", th, want, keeps, f"red:{route}:{name}:{shape}:{ax}")
+        run(f"field{shape}.integrate()", lambda X=X: M.attr_hook(X, "integrate")(), reduce_plain(XArray(X.shape, X.data), _UF["add"], 1), False, f"integrate:{shape}")
+    X = _mk("x", (2, 2, 2, 2))
+    for new, keeps in (((2, 2, 4), True), ((2, 2, 4, 1), True), ((4, 4), False), ((2, 8), False), ((-1,), False), ((2, 2, -1), True)):
+        want = XArray(X.shape, X.data).reshape(*new)
+        run(f"field(2,2,2,2).reshape{new}", lambda new=new: M.attr_hook(X, "reshape")(*new), want, keeps, f"reshape:{new}")
+    # np.einsum on fields keeps the field type and is the plain contraction
+    A, B = _mk("a", (3, 2, 2, 2)), _mk("b", (3, 2, 2, 2))
+    from ..xeval import _NpAttr
+
+    run("np.einsum('...ij,...jk->...ik', field, field)", lambda: M.call_hook(_NpAttr("einsum"), ["...ij,...jk->...ik", A, B], {}), xe("...ij,...jk->...ik", XArray(A.shape, A.data), XArray(B.shape, B.data)), True, "einsum:keep")
+    run("np.einsum('epij,epij->e', field, field)", lambda: M.call_hook(_NpAttr("einsum"), ["epij,epij->e", A, B], {}), xe("epij,epij->e", XArray(A.shape, A.data), XArray(B.shape, B.data)), False, "einsum:drop")
+
+    # ---- constructors: asfearray / broadcast decision table
+    def ctor(desc, thunk, want_shape, key, want_raise=False):
+        r.instance()
+        try:
+            got = thunk()
+        except XRaise as e:
+            if want_raise:
+                r.ok(f"{desc}: refused ({e.exc_name})")
+            else:
+                r.fail(f"{LA}.FeArray", key, anchor.file, anchor.lineno, "FeArray", f"{desc}: raises {e}")
+            return
+        if want_raise:
+            r.fail(f"{LA}.FeArray", key, anchor.file, anchor.lineno, "FeArray", f"{desc}: accepted (shape {getattr(got, 'shape', None)}), must be refused")
+        elif not isinstance(got, FeV) or got.shape != want_shape:
+            r.fail(f"{LA}.FeArray", key, anchor.file, anchor.lineno, "FeArray", f"{desc}: gives {type(got).__name__}{getattr(got, 'shape', '')}, expected FeArray{want_shape}")
+        else:
+            r.ok(f"{desc} -> FeArray{want_shape}")
+
+    Ne, nPg = 3, 3  # deliberately equal to the tensor dimension
+    Tn = (3, 3)
+    ctor("asfearray of a 1-D array", lambda: M.static("asfearray", _mk("z", (3,), fe=False)), None, "asfe:1d", want_raise=True)
+    ctor("asfearray((3,3,3)) views the array", lambda: M.static("asfearray", _mk("z", (3, 3, 3), fe=False)), (3, 3, 3), "asfe:view")
+    ctor("asfearray(matrix, broadcastFeArrays=True)", lambda: M.static("asfearray", _mk("z", (3, 3), fe=False), True), (1, 1, 3, 3), "asfe:bc")
+    for lead, name in (((), "homogeneous"), ((Ne,), "per-element"), ((Ne, nPg), "per-point")):
+        arr = _mk("z", lead + Tn, fe=False)
+        ctor(f"broadcast({name} tensor{arr.shape}, Ne=nPg=3, tensor_ndim=2)", lambda arr=arr: M.static("broadcast", arr, Ne, nPg, tensor_ndim=2), (Ne, nPg) + Tn, f"bc:t2:{name}")
+        # value check: the (e, p) entry is the input's (e), (e, p) or () entry
+        r.instance()
+        got = M.static("broadcast", arr, Ne, nPg, tensor_ndim=2)
+        okv = True
+        for e in range(Ne):
+            for p in range(nPg):
+                src = XArray.__getitem__(arr, ((e,) if lead == (Ne,) else (e, p) if lead else ()) + (1, 2)) if lead else arr[1, 2]
+                if got[e, p, 1, 2] != src:
+                    okv = False
+        if okv:
+            r.ok(f"broadcast {name}: entry (e, p) comes from the input's {'(e)' if lead == (Ne,) else '(e, p)' if lead else 'only'} entry")
+        else:
+            r.fail(f"{LA}.FeArray", f"bc:value:{name}", anchor.file, anchor.lineno, "FeArray.broadcast", f"{name} tensor: entries are not held at the right (e, p)")
+    ctor("broadcast(tensor with leading (nPg,)=(2,) and Ne=3, tensor_ndim=2)", lambda: M.static("broadcast", _mk("z", (2, 3, 3), fe=False), 3, 2, tensor_ndim=2), None, "bc:t2:bad", want_raise=True)
+    ctor("broadcast(per-element scalars (Ne,), Ne=3, nPg=2)", lambda: M.static("broadcast", _mk("z", (3,), fe=False), 3, 2), (3, 2), "bc:s:Ne")
+    ctor("broadcast(per-point scalars (nPg,), Ne=3, nPg=2)", lambda: M.static("broadcast", _mk("z", (2,), fe=False), 3, 2), (3, 2), "bc:s:nPg")
+    ctor("broadcast(full field (Ne, nPg, 2))", lambda: M.static("broadcast", _mk("z", (3, 2, 2), fe=False), 3, 2), (3, 2, 2), "bc:s:full")
+    r.instance()
+    got = M.static("broadcast", Q(3, 2), 3, 2)
+    if isinstance(got, (Fraction, float, int)):
+        r.ok("broadcast(scalar) stays a scalar")
+    else:
+        r.fail(f"{LA}.FeArray", "bc:scalar", anchor.file, anchor.lineno, "FeArray.broadcast", "a scalar coefficient is not returned as a scalar")
